@@ -6,11 +6,14 @@ import struct
 from io import BytesIO
 
 from buidl import tx as btx
+from buidl.helper import encode_varint, encode_varstr, read_varint, read_varstr
 from buidl.script import (P2PKHScriptPubKey, P2SHScriptPubKey, P2TRScriptPubKey, P2WPKHScriptPubKey,
                           P2WSHScriptPubKey, Script, ScriptPubKey)
+from buidl.timelock import Locktime, Sequence
 from buidl.tx import Tx, TxFetcher, TxIn, TxOut
 from buidl.witness import Witness
 from vp.sexp import ERR
+from vp.sexp import canon as sexp_canon
 
 PID = "C04"
 RULE = ("Scripts: one script per push length 0..521 (all three length classes and both edges of each), every "
@@ -20,12 +23,20 @@ RULE = ("Scripts: one script per push length 0..521 (all three length classes an
         "scripts long enough for 3- and 5-byte compact sizes; malformed stream = every truncation offset and a "
         "byte flip at every offset of sampled serialisations, non-minimal pushes, random bytes; fetcher responses: "
         "honest, trailing bytes, non-minimal push, other transaction, garbage, whitespace/upper-case hex, "
-        "non-UTF-8, cached/fresh sequences.")
+        "non-UTF-8, cached/fresh sequences, every served network and unknown networks.  Streams: every parse entry "
+        "point of the correspondence cases reads its input from offset 0, 1, 6 or 11 of a stream; dedicated "
+        "mid-stream predicates place the canonical encoding of a transaction / input / output / script / witness / "
+        "compact size / var-string / 4-byte field behind prefixes of length 0..7, 36, 300 (random, 00, 00 01, a "
+        "whole transaction) and before trailing bytes, and check fields and the final stream position; several "
+        "transactions back to back; compact sizes on both sides of every width boundary up to 2^64-1 (9-byte "
+        "width), out-of-range values, every first byte 0..255 with complete (also non-minimal) payloads; "
+        "parse_hex, clone (independence of the copy), constructor defaults.")
 TRUSTED = ["hashlib (sha256) — hash256 is a universally quantified function in the theorems",
            "modelled, not verified: object plumbing (Script/TxIn/TxOut/Tx/Witness constructors, Sequence/Locktime "
            "int subclasses are modelled as a range check at construction), urllib Request construction"]
-ASSUMPTIONS = ["9-byte compact sizes (lengths/counts >= 2^32) are proved in Coq but not exercised at run time "
-               "(a 4 GiB script is not built); 5-byte ones are",
+ASSUMPTIONS = ["9-byte compact sizes as LENGTHS/COUNTS (>= 2^32) are proved in Coq but not exercised at run time "
+               "(a 4 GiB script is not built); 5-byte ones are; encode_varint/read_varint themselves are exercised on "
+               "9-byte values",
                "streams are io.BytesIO objects (Tx.parse relies on BytesIO.seek clamping)"]
 BUDGET_S = {"quick": 600, "thorough": 3000}
 
@@ -107,44 +118,62 @@ def un_tx(t):
 # ---------------------------------------------------------------- implementation entry points
 
 
+PREFIX_LENS = (0, 1, 6, 11)
+
+
+def mid(s):
+    """A stream that holds `s` and is positioned at its first byte; for three inputs out of four `s` does not start
+    at offset 0 (a deterministic prefix of 1, 6 or 11 bytes, derived from `s` itself so that a replay rebuilds the
+    same stream).  The parsers must behave as on a stream that starts with `s`: every parse entry point below
+    returns the bytes left in the stream, so a parser that steps back too far (a relative seek clamped by BytesIO
+    only at offset 0), reads from an absolute position, or consumes a wrong number of bytes disagrees with the
+    model."""
+    k = (len(s) + (s[0] if s else 0) + (s[-1] if s else 0)) % 4
+    n = PREFIX_LENS[k]
+    pre = hashlib.sha256(b"C04 stream prefix" + bytes([k]) + s[:8]).digest()[:n]
+    st = BytesIO(pre + s)
+    st.seek(n)
+    return st
+
+
 def i_parse_script(s):
-    st = BytesIO(s)
+    st = mid(s)
     sc = Script.parse(st)
     return [un_script(sc), st.read()]
 
 
 def i_parse_script_pubkey(s):
-    st = BytesIO(s)
+    st = mid(s)
     sc = ScriptPubKey.parse(st)
     return [un_script(sc), SPK_KIND.get(type(sc), 0), st.read()]
 
 
 def i_witness_parse(s):
-    st = BytesIO(s)
+    st = mid(s)
     w = Witness.parse(st)
     return [list(w.items), st.read()]
 
 
 def i_txin_parse(s):
-    st = BytesIO(s)
+    st = mid(s)
     i = TxIn.parse(st)
     return [un_txin(i), st.read()]
 
 
 def i_txout_parse(s):
-    st = BytesIO(s)
+    st = mid(s)
     o = TxOut.parse(st)
     return [un_txout(o), SPK_KIND.get(type(o.script_pubkey), 0), st.read()]
 
 
 def i_tx_parse(s):
-    st = BytesIO(s)
+    st = mid(s)
     t = Tx.parse(st)
     return [un_tx(t), st.read()]
 
 
 def i_tx_roundtrip(v, rest):
-    st = BytesIO(mk_tx(v).serialize() + rest)
+    st = mid(mk_tx(v).serialize() + rest)
     t = Tx.parse(st)
     return [un_tx(t), st.read()]
 
@@ -303,6 +332,27 @@ def ref_full(v):
 
 def ref_witness(items):
     return ref_varint(len(items)) + b"".join(ref_varint(len(x)) + x for x in items)
+
+
+def ref_txin(i):
+    pt, pi, sc, sq, _w = i
+    return pt[::-1] + struct.pack("<I", pi) + ref_script(sc) + struct.pack("<I", sq)
+
+
+def ref_txout(o):
+    am, sc = o
+    return struct.pack("<Q", am) + ref_script(sc)
+
+
+def ref_read_varint(raw):
+    """(value, bytes consumed) of the compact size at the start of raw (all of its bytes present)"""
+    w = {0xfd: 2, 0xfe: 4, 0xff: 8}.get(raw[0], 0)
+    if w == 0:
+        return raw[0], 1
+    v = 0
+    for k in range(w):
+        v |= raw[1 + k] << (8 * k)
+    return v, 1 + w
 
 
 def ref_txid(v):
@@ -546,8 +596,259 @@ def p_fetch(resp, idb, must_accept):
         TxFetcher.cache.clear()
 
 
+def _at(pre, enc, post):
+    st = BytesIO(pre + enc + post)
+    st.seek(len(pre))
+    return st
+
+
+def _mid_parsers(kind, val):
+    """(reference encoding, [(name, parser, observed fields)], expected fields) for one object kind"""
+    if kind == b"tx":
+        want = canon_tx(val)
+        direct = ("Tx.parse_segwit", Tx.parse_segwit) if val[4] else ("Tx.parse_legacy", Tx.parse_legacy)
+        return ref_full(val), [("Tx.parse", Tx.parse, un_tx), direct + (un_tx,)], want
+    if kind == b"txin":
+        want = [val[0], val[1], [canon_cmds(val[2][0]), []], val[3], []]
+        return ref_txin(val), [("TxIn.parse", TxIn.parse, un_txin)], want
+    if kind == b"txout":
+        want = [val[0], [canon_cmds(val[1][0]), []]]
+        return ref_txout(val), [("TxOut.parse", TxOut.parse, un_txout)], want
+    if kind == b"script":
+        want = [canon_cmds(val), []]
+        return ref_script([val]), [("Script.parse", Script.parse, un_script),
+                                   ("Script.parse(stream=)", lambda st: Script.parse(stream=st), un_script),
+                                   ("ScriptPubKey.parse", ScriptPubKey.parse, un_script)], want
+    if kind == b"witness":
+        return ref_witness(val), [("Witness.parse", Witness.parse, lambda w: list(w.items))], list(val)
+    if kind == b"varint":
+        return ref_varint(val), [("read_varint", read_varint, lambda n: n)], val
+    if kind == b"varstr":
+        return ref_varint(len(val)) + val, [("read_varstr", read_varstr, lambda b: b)], val
+    if kind == b"u32":
+        return struct.pack("<I", val), [("Locktime.parse", Locktime.parse, int), ("Sequence.parse", Sequence.parse, int)], val
+    raise ValueError("unknown kind")
+
+
+def p_mid_stream(kind, pre, val, post):
+    """the canonical encoding of an object sits in the MIDDLE of a stream (bytes before and after it): every
+    parser of the codec, started at the first byte of the object, returns the encoded fields, consumes exactly
+    the object's own bytes and leaves the stream position right behind them"""
+    enc, parsers, want = _mid_parsers(kind, val)
+    for name, parse, fields in parsers:
+        st = _at(pre, enc, post)
+        with contextlib.redirect_stdout(io.StringIO()):
+            try:
+                obj = parse(st)
+            except Exception as e:
+                return f"{name} raised {type(e).__name__} on a canonical encoding at offset {len(pre)} of a stream"
+            got = fields(obj)
+        if sexp_canon(got) != sexp_canon(want):
+            return f"{name} at offset {len(pre)} of a stream returns different fields than the encoded ones"
+        if st.tell() != len(pre) + len(enc):
+            return (f"{name} started at offset {len(pre)} left the stream at {st.tell()}, the object ends at "
+                    f"{len(pre) + len(enc)}")
+        if st.read() != post:
+            return f"{name}: the bytes after the object are no longer next in the stream"
+        if st.getvalue() != pre + enc + post:
+            return f"{name} modified the stream"
+    return None
+
+
+def p_tx_sequence(pre, vals, post):
+    """several transactions back to back in one stream (as in a block): each Tx.parse returns the next one"""
+    vals = list(vals)
+    encs = [ref_full(v) for v in vals]
+    st = _at(pre, b"".join(encs), post)
+    pos = len(pre)
+    with contextlib.redirect_stdout(io.StringIO()):
+        for k, (v, e) in enumerate(zip(vals, encs)):
+            try:
+                t = Tx.parse(st)
+            except Exception as ex:
+                return f"Tx.parse raised {type(ex).__name__} on transaction #{k} of a stream of canonical encodings"
+            pos += len(e)
+            if un_tx(t) != canon_tx(v) or t.serialize() != e or t.id() != ref_txid(v):
+                return f"transaction #{k} of a stream of transactions is not parsed as encoded"
+            if st.tell() != pos:
+                return f"after transaction #{k} the stream is at {st.tell()}, the transaction ends at {pos}"
+    if st.read() != post:
+        return "bytes after the last transaction are not next in the stream"
+    return None
+
+
+def p_varint(n, pre, post):
+    """encode_varint is the minimal compact size of every n in [0, 2^64) (all four widths) and raises outside;
+    read_varint/read_varstr read it back from anywhere in a stream and stop right behind it"""
+    if not 0 <= n < U64:
+        return None if _raises(encode_varint, n) else f"encode_varint({n}) did not raise"
+    try:
+        enc = encode_varint(n)
+    except Exception as e:
+        return f"encode_varint({n}) raised {type(e).__name__}"
+    if enc != ref_varint(n):
+        return f"encode_varint({n}) is not the minimal compact size"
+    st = _at(pre, enc, post)
+    try:
+        got = read_varint(st)
+    except Exception as e:
+        return f"read_varint raised {type(e).__name__} on encode_varint({n})"
+    if got != n or st.tell() != len(pre) + len(enc) or st.read() != post:
+        return f"read_varint(encode_varint({n})) gives {got} / wrong stream position"
+    return None
+
+
+def p_varint_decode(raw, pre):
+    """read_varint on a complete compact size (any first byte, minimal or not) equals the reference decoder and
+    consumes 1/3/5/9 bytes"""
+    want, used = ref_read_varint(raw)
+    st = _at(pre, raw, b"")
+    try:
+        got = read_varint(st)
+    except Exception as e:
+        return f"read_varint raised {type(e).__name__} on a complete compact size"
+    if got != want:
+        return f"read_varint gives {got}, the compact size encodes {want}"
+    if st.tell() != len(pre) + used:
+        return f"read_varint consumed {st.tell() - len(pre)} bytes of a {used}-byte compact size"
+    return None
+
+
+def p_varstr(data, pre, post):
+    enc = encode_varstr(data)
+    if enc != ref_varint(len(data)) + data:
+        return "encode_varstr layout"
+    st = _at(pre, enc, post)
+    got = read_varstr(st)
+    if got != data or st.tell() != len(pre) + len(enc) or st.read() != post:
+        return "read_varstr(encode_varstr(data)) differs / wrong stream position"
+    return None
+
+
+def p_api_forms(v):
+    """the other entry points of the same codec: parse_hex, clone, constructor defaults"""
+    if not (wf(v) and (v[4] or v[1])):
+        return None
+    raw = ref_full(v)
+    with contextlib.redirect_stdout(io.StringIO()):
+        t = Tx.parse_hex(raw.hex())
+        if un_tx(t) != canon_tx(v) or t.serialize() != raw:
+            return "Tx.parse_hex(hex of a canonical encoding) differs from the encoded fields"
+        a = mk_tx(v)
+        c = a.clone()
+        if c is a or c.serialize() != raw or un_tx(c) != canon_tx(v) or c.id() != ref_txid(v):
+            return "clone() is not a field-for-field copy"
+        if any(x is y for x, y in zip(a.tx_ins, c.tx_ins)) or any(x is y for x, y in zip(a.tx_outs, c.tx_outs)) \
+                or c.tx_ins is a.tx_ins or c.tx_outs is a.tx_outs:
+            return "clone() shares inputs/outputs with the original"
+        c.locktime = Locktime((int(c.locktime) + 1) % U32)
+        if c.tx_ins:
+            c.tx_ins[0].prev_index = (c.tx_ins[0].prev_index + 1) % U32
+            c.tx_ins[0].witness.items.append(b"x")
+            c.tx_ins[0].script_sig.commands.append(0x51)
+        if c.tx_outs:
+            c.tx_outs[0].amount = (c.tx_outs[0].amount + 1) % U64
+            c.tx_outs[0].script_pubkey.commands.append(0x51)
+        c.tx_outs.append(TxOut(1, Script([0x51])))
+        if a.serialize() != raw or a.id() != ref_txid(v):
+            return "editing a clone() changed the original"
+        # constructor defaults: locktime 0, sequence 0xffffffff, empty scriptSig, empty witness
+        ver, ins, outs, lt, sw = v
+        d = Tx(ver, [TxIn(i[0], i[1]) for i in ins], [mk_txout(o) for o in outs], segwit=bool(sw))
+        dv = [ver, [[i[0], i[1], [[], []], 0xffffffff, []] for i in ins], outs, 0, sw]
+        if d.serialize() != ref_full(dv) or d.id() != ref_txid(dv):
+            return "defaults of Tx(...)/TxIn(...) are not locktime 0 / sequence 0xffffffff / empty scriptSig / no witness"
+        d2 = Tx(ver, [mk_txin(i) for i in ins], [mk_txout(o) for o in outs], None, segwit=bool(sw))
+        if d2.serialize() != ref_full([ver, ins, outs, 0, sw]):
+            return "Tx(..., locktime=None) does not serialise locktime 0"
+        # a transaction built without the segwit argument is a legacy one (no marker, no witness section)
+        if ins:
+            for d3 in (Tx(ver, [mk_txin(i) for i in ins], [mk_txout(o) for o in outs], lt),
+                       Tx(ver, [mk_txin(i) for i in ins], [mk_txout(o) for o in outs], lt, "mainnet"),
+                       Tx(ver, [mk_txin(i) for i in ins], [mk_txout(o) for o in outs])):
+                want = ref_legacy([ver, ins, outs, int(d3.locktime), 0])
+                if d3.segwit is not False or d3.serialize() != want or int(d3.locktime) not in (lt, 0):
+                    return "Tx(version, tx_ins, tx_outs[, locktime]) without the segwit argument is not serialised as a legacy transaction"
+                if un_tx(Tx.parse(BytesIO(want))) != canon_tx([ver, ins, outs, int(d3.locktime), 0]):
+                    return "a transaction built without the segwit argument does not parse back to its fields"
+    return None
+
+
+def p_script_api(a, b, pre):
+    """Script.parse_hex, Script + Script, the stream=/raw= argument check, Witness defaults and clone"""
+    a, b = list(a), list(b)
+    if not (cmds_wf(a) and cmds_wf(b)):
+        return None
+    raw = ref_cmds(a)
+    with contextlib.redirect_stdout(io.StringIO()):
+        sc = Script.parse_hex(raw.hex())
+        if sc.commands != canon_cmds(a) or sc.raw is not None or sc.raw_serialize() != raw:
+            return "Script.parse_hex(hex of a canonical script) differs"
+        both = Script(list(a)) + Script(list(b))
+        if both.raw_serialize() != ref_cmds(a + b) or both.serialize() != ref_script([a + b]):
+            return "Script(a) + Script(b) does not serialise as the concatenated commands"
+        if Script(list(a)).raw_serialize() != raw:
+            return "Script + Script changed an operand"
+        # the library's notion of "same script": a parsed script equals the one that was serialised, and only that
+        if not (sc == Script(canon_cmds(a))) or not (Script.parse(_at(pre, ref_script([a]), b"\x51")) == sc):
+            return "a script parsed from its canonical encoding does not compare equal (==) to the original"
+        if sc == Script(canon_cmds(a) + [0x51]) or (a and sc == Script(canon_cmds(a)[:-1])):
+            return "scripts with different commands compare equal (==)"
+        if not _raises(Script.parse):
+            return "Script.parse() without stream and raw did not raise"
+        if raw and not _raises(lambda: Script.parse(_at(pre, ref_script([a]), b""), raw)):
+            return "Script.parse(stream, raw) with both arguments did not raise"
+        if Witness().serialize() != b"\x00" or Witness(None).items != [] or Witness([]).serialize() != b"\x00":
+            return "empty Witness() does not serialise as a zero count"
+        items = [x for x in a + b if not isinstance(x, int)]
+        w = Witness(list(items))
+        c = w.clone()
+        if c.serialize() != ref_witness(items) or len(c) != len(items) or [c[k] for k in range(len(items))] != items:
+            return "Witness.clone() differs"
+        c.items.append(b"z")
+        if w.serialize() != ref_witness(items):
+            return "editing a Witness.clone() changed the original"
+    return None
+
+
+NETWORKS = (b"mainnet", b"testnet", b"signet")
+
+
+def p_fetch_network(resp, idb, net, must_accept):
+    """the integrity check holds on every network the fetcher serves; an unknown network is refused without a request"""
+    tx_id, network = idb.decode("latin-1"), net.decode("latin-1")
+    TxFetcher.cache.clear()
+    try:
+        with contextlib.redirect_stdout(io.StringIO()):
+            with fake_net([resp]) as fn:
+                try:
+                    t = TxFetcher.fetch(tx_id, network=network, fresh=True)
+                except Exception as e:
+                    if net not in NETWORKS:
+                        return "a request was sent for an unknown network" if fn.urls else None
+                    if must_accept:
+                        return f"honest response rejected on {network}: {type(e).__name__}"
+                    return "rejected response left an entry in the cache" if tx_id in TxFetcher.cache else None
+            if net not in NETWORKS:
+                return "fetch for an unknown network returned a transaction"
+            real = hashlib.sha256(hashlib.sha256(t.serialize_legacy()).digest()).digest()[::-1].hex()
+        if real != tx_id or t.id() != tx_id:
+            return f"fetch on {network} returned a transaction whose id is {real[:16]}.., requested {tx_id[:16]}.."
+        if t.network != network:
+            return "returned transaction carries another network"
+        if len(fn.urls) != 1 or not fn.urls[0].endswith("/tx/" + tx_id + "/hex") or not fn.urls[0].startswith("https://"):
+            return "unexpected request url"
+        if (network != "mainnet") != (network in fn.urls[0]):
+            return "request went to the endpoint of another network"
+        return None
+    finally:
+        TxFetcher.cache.clear()
+
+
 PROPS = {"script_rt": p_script_rt, "raw_fallback": p_raw_fallback, "witness_rt": p_witness_rt, "tx_rt": p_tx_rt, "zero_inputs": p_zero_inputs,
-         "bytes_rt": p_bytes_rt, "txid": p_txid, "txid_inplace": p_txid_inplace, "fetch": p_fetch}
+         "bytes_rt": p_bytes_rt, "txid": p_txid, "txid_inplace": p_txid_inplace, "fetch": p_fetch,
+         "mid_stream": p_mid_stream, "tx_sequence": p_tx_sequence, "varint": p_varint, "varint_decode": p_varint_decode,
+         "varstr": p_varstr, "api_forms": p_api_forms, "script_api": p_script_api, "fetch_network": p_fetch_network}
 
 
 def classify(v):
@@ -878,9 +1179,9 @@ def generate(ctx):
         if r.random() < 0.1:
             i[0] = ctx.rbytes(r.choice([0, 1, 31, 33, 64]))
         yield ("corr", "txin_serialize", [i])
-        try:
-            raw = quiet(lambda: mk_txin(i).serialize())()
-        except Exception:
+        try:    # independent encoder: a defect of the library's serialiser must not stop or thin out the parse cases
+            raw = ref_txin(i)
+        except (struct.error, ValueError):
             raw = ctx.rbytes(50)
         yield ("corr", "txin_parse", [raw + ctx.rbytes(r.randrange(3))])
         yield ("corr", "txin_parse", [raw[: r.randrange(0, len(raw) + 1)]])
@@ -889,8 +1190,8 @@ def generate(ctx):
             o[0] = r.choice([-1, U64, U64 + 1])
         yield ("corr", "txout_serialize", [o])
         try:
-            raw = quiet(lambda: mk_txout(o).serialize())()
-        except Exception:
+            raw = ref_txout(o)
+        except (struct.error, ValueError):
             raw = ctx.rbytes(20)
         yield ("corr", "txout_parse", [raw + ctx.rbytes(r.randrange(3))])
         yield ("corr", "txout_parse", [raw[: r.randrange(0, len(raw) + 1)]])
@@ -1122,3 +1423,90 @@ def generate(ctx):
         yield ("corr", "fromhex", [t])
         yield ("corr", "hexlify", [ctx.rbytes(r.randrange(0, 9))])
     yield ("corr", "hexlify", [bytes(range(256))])
+    # ------------------------------------------------------------ objects in the MIDDLE of a stream
+    # (bytes before and after the object; the parse starts at the object's first byte, must return the encoded
+    #  fields and leave the position right behind the object).  Prefixes: every length 0..7 (both sides of the
+    #  5-byte step back of Tx.parse), long ones, prefixes that are themselves a transaction / end in 00 / 00 01.
+    def prefixes():
+        for n in (0, 1, 2, 3, 4, 5, 6, 7, 36, 300):
+            yield ctx.rbytes(n)
+        yield b"\x00"
+        yield b"\x00\x01"
+        yield b"\x01\x00\x00\x00\x00"
+        yield b"\xff" * 9
+        yield ref_full(r_tx(ctx, r, r.choice([1, 2]), 1))
+
+    def posts():
+        return r.choice([b"", b"", b"\x00", b"\x01", ctx.rbytes(r.randrange(1, 9)), b"\x00\x01" + ctx.rbytes(4)])
+
+    mids = [s for s in samples if wf(s) and (s[4] or s[1])]
+    base = [[1, [small_in(ctx, r, 0)], [[5, [[0x51], []]]], 0, 0],                              # smallest legacy
+            [2, [small_in(ctx, r, 1, [b"\x01"])], [[5, [[0, bytes(20)], []]]], 0, 1],            # smallest segwit
+            [2, [], [], 0, 1],                                                                   # 10-byte segwit, no inputs
+            [0, [small_in(ctx, r, 0)], [], 0, 0],                                                # version 0 (00 00 00 00 01)
+            [0x01000000, [small_in(ctx, r, 1)], [], 0xffffffff, 1],
+            [1, [small_in(ctx, r, 0) for _ in range(253)], [[1, [[0x51], []]]], 7, 0],           # 3-byte input count
+            [1, [small_in(ctx, r, 1, [ctx.rbytes(253)]) for _ in range(2)], [[1, [[ctx.rbytes(76)], []]] for _ in range(253)], 7, 1]]
+    for v in base:
+        for pre in prefixes():
+            ctx.label(f"mid-stream/tx/prefix={min(len(pre), 8)}{'+' if len(pre) >= 8 else ''}")
+            yield ("prop", "mid_stream", [b"tx", pre, v, posts()])
+    for k in range(ctx.n(300, 4000)):
+        v = mids[k % len(mids)] if k % 3 else r_tx(ctx, r, r.choice([1, 2, 3]))
+        pre = ctx.rbytes(r.choice([0, 1, 2, 3, 4, 5, 6, 7, 8, 41, 100]))
+        ctx.label("mid-stream/tx/" + ("segwit" if v[4] else "legacy") + ("@0" if not pre else "@>0"))
+        yield ("prop", "mid_stream", [b"tx", pre, v, posts()])
+        if k % 10 == 0:
+            seq = [mids[(k + 7 * j) % len(mids)] for j in range(r.randrange(2, 5))]
+            ctx.label("mid-stream/tx-sequence")
+            yield ("prop", "tx_sequence", [pre, seq, posts()])
+    for k in range(ctx.n(150, 2500)):
+        pre = ctx.rbytes(r.choice([0, 1, 2, 5, 6, 9, 33]))
+        ctx.label("mid-stream/parts")
+        yield ("prop", "mid_stream", [b"txin", pre, r_txin(ctx, r, 0), posts()])
+        yield ("prop", "mid_stream", [b"txout", pre, r_txout(ctx, r), posts()])
+        yield ("prop", "mid_stream", [b"script", pre, r_cmds(ctx, r, big=(k % 5 == 0)), posts()])
+        yield ("prop", "mid_stream", [b"script", pre, r_spk_cmds(ctx, r), posts()])
+        yield ("prop", "mid_stream", [b"witness", pre, r_witness(ctx, r), posts()])
+        yield ("prop", "mid_stream", [b"u32", pre, r_u32(r), posts()])
+        yield ("prop", "varstr", [ctx.rbytes(r.choice([0, 1, 2, 252, 253, 254, r.randrange(0, 600)])), pre, posts()])
+    for ln in (0, 1, 75, 76, 252, 253, 255, 256, 520):
+        yield ("prop", "mid_stream", [b"script", ctx.rbytes(3), [ctx.rbytes(ln)], ctx.rbytes(2)])
+        yield ("prop", "mid_stream", [b"witness", ctx.rbytes(3), [ctx.rbytes(ln), b""], ctx.rbytes(2)])
+    for ln in (0xfc, 0xfd, 0xffff, 0x10000, 70000):
+        yield ("prop", "mid_stream", [b"varstr", ctx.rbytes(5), ctx.rbytes(ln), b"\xfd"])
+        yield ("prop", "mid_stream", [b"witness", ctx.rbytes(5), [ctx.rbytes(ln)], b"\xfd"])
+        yield ("prop", "varstr", [ctx.rbytes(ln), ctx.rbytes(2), b"\x00"])
+    # compact sizes: both sides of every width boundary, all four widths incl. the 9-byte one, out of range
+    VI_EDGES = [0, 1, 2, 0xfb, 0xfc, 0xfd, 0xfe, 0xff, 0x100, 0x101, 0xfffe, 0xffff, 0x10000, 0x10001, 0xfffffffe,
+                0xffffffff, 0x100000000, 0x100000001, 2 ** 63 - 1, 2 ** 63, U64 - 2, U64 - 1]
+    for n in VI_EDGES + [r.getrandbits(r.choice([7, 8, 15, 16, 17, 31, 32, 33, 63, 64])) for _ in range(ctx.n(200, 3000))]:
+        ctx.label("varint/width-%d" % len(ref_varint(n)))
+        yield ("prop", "varint", [n, ctx.rbytes(r.randrange(0, 4)), posts()])
+        yield ("prop", "mid_stream", [b"varint", ctx.rbytes(r.randrange(0, 7)), n, posts()])
+    for n in (U64, U64 + 1, 2 ** 65, 2 ** 72 - 1, 2 ** 200, -1, -2, -0xfd, -256, -U64):
+        ctx.label("varint/out-of-range")
+        yield ("prop", "varint", [n, b"", b""])
+    for first in range(256):     # every first byte, complete (possibly non-minimal) encodings
+        for tail in (bytes(8), b"\xff" * 8, ctx.rbytes(8), b"\x05" + bytes(7)):
+            yield ("prop", "varint_decode", [bytes([first]) + tail, ctx.rbytes(first % 3)])
+    # ------------------------------------------------------------ the other entry points of the same codec
+    for k in range(ctx.n(150, 2000)):
+        v = mids[(k * 5 + 1) % len(mids)] if k % 2 else r_tx(ctx, r, r.choice([0, 1, 2, 3]), segwit=(1 if k % 4 == 0 else None))
+        ctx.label("api/parse_hex-clone-defaults")
+        yield ("prop", "api_forms", [v])
+        yield ("prop", "script_api", [r_cmds(ctx, r), r_spk_cmds(ctx, r), ctx.rbytes(r.randrange(0, 4))])
+    yield ("prop", "script_api", [[], [], b""])
+    for v in base:
+        yield ("prop", "api_forms", [v])
+    # fetcher on every network, unknown networks
+    for k in range(ctx.n(40, 600)):
+        v = good[k % len(good)]
+        w = good[(k * 11 + 5) % len(good)]
+        raw, tid = ref_full(v), ref_txid(v).encode()
+        for net in NETWORKS:
+            ctx.label("fetch/network")
+            yield ("prop", "fetch_network", [hexresp(raw), tid, net, 1])
+            if ref_txid(w) != ref_txid(v):
+                yield ("prop", "fetch_network", [hexresp(ref_full(w)), tid, net, 0])
+        yield ("prop", "fetch_network", [hexresp(raw), tid, r.choice([b"regtest", b"", b"Mainnet", b"mainnet ", b"testnet4"]), 0])
